@@ -223,15 +223,67 @@ SMT_OPS_NUM: List[Tuple[str, str, str]] = [
 ]
 
 
-def _case(g: str, fam: str, feat: str, c: str) -> dict:
-    return {"g": g, "fam": fam, "feat": feat, "c": c}
+def _case(g: str, fam: str, feat: str, c: str, sig: str = None) -> dict:
+    """``sig`` = coarse, cause-oriented input class used in violation signatures
+    (defaults to ``fam:feat``)."""
+    return {"g": g, "fam": fam, "feat": feat, "c": c, "sig": sig or f"{fam}:{feat}"}
 
 
 def _alts_with_nts(prof: Profile, nt: str):
     return [alt for alt in prof.rules[nt] if any(s in prof.rules for s in alt)]
 
 
-def _mexpr_text(symbols, bind: Dict[int, str]) -> str:
+_SPECIAL = [('"', "dquote"), ("\\", "backslash"), ("\n", "newline"), ("\t", "tab"), ("ä", "non-ascii"),
+            ("{", "brace"), ("}", "brace"), ("[", "bracket"), ("]", "bracket")]
+
+
+def _terminal_class(symbols, rules) -> str:
+    """Class of the terminal text of one alternative with respect to the characters
+    that are special in a match expression inside an ISLa string."""
+    text = "".join(s for s in symbols if s not in rules)
+    found = []
+    for ch, cls in _SPECIAL:
+        if ch in text and cls not in found:
+            found.append(cls)
+    adjacent = any(
+        symbols[i] not in rules and symbols[i + 1] not in rules for i in range(len(symbols) - 1)
+    )
+    return "+".join(found) if found else "plain"
+
+
+def _xpath_class(prof: Profile, p: str, c: str) -> str:
+    """Special-character classes of the terminals in those alternatives of ``p`` that
+    contain ``c`` (they end up in the match expressions ISLa generates)."""
+    found = []
+    for alt in prof.rules[p]:
+        if c in alt:
+            cls = _terminal_class(alt, prof.rules)
+            if cls != "plain":
+                for part in cls.split("+"):
+                    if part not in found:
+                        found.append(part)
+    return "+".join(found) if found else "plain"
+
+
+def _adjacent(prof: Profile, p: str, c: str, d: str) -> bool:
+    """Does expanding ``c`` inside an alternative of ``p`` by an alternative that
+    contains ``d`` put two terminal symbols next to each other?  (The frontier of
+    that partial tree is the match expression ISLa generates for ``p.c.d``.)"""
+    for alt in prof.rules[p]:
+        for i, sym in enumerate(alt):
+            if sym != c:
+                continue
+            for alt2 in prof.rules[c]:
+                if d not in alt2 or not alt2:
+                    continue
+                left = i > 0 and alt[i - 1] not in prof.rules and alt2[0] not in prof.rules
+                right = i + 1 < len(alt) and alt[i + 1] not in prof.rules and alt2[-1] not in prof.rules
+                if left or right:
+                    return True
+    return False
+
+
+def _mexpr_text(symbols, bind: Dict[int, str], rules) -> str:
     """Concrete match-expression text for one alternative: nonterminal symbol i is
     written ``{<T> name}`` if ``i in bind``; terminals are written with the ISLa
     string escapes (``\\"`` ``\\\\`` ``\\n`` ``\\t``) and ``{{`` ``}}``."""
@@ -239,7 +291,7 @@ def _mexpr_text(symbols, bind: Dict[int, str]) -> str:
     for i, sym in enumerate(symbols):
         if i in bind:
             out.append("{" + sym + " " + bind[i] + "}")
-        elif sym.startswith("<") and sym.endswith(">") and len(sym) > 2 and " " not in sym:
+        elif sym in rules:
             out.append(sym)
         else:
             out.append(isla_escape(sym, mexpr=True))
@@ -268,6 +320,28 @@ def isla_escape(s: str, mexpr: bool = False) -> str:
     return "".join(out)
 
 
+_LIT_SIG = {"non-ascii-inner": "non-ascii", "dquote-inner": "dquote", "two-dquotes": "dquote",
+            "backslash-escaped-inner": "backslash-escaped", "hash-inner": "hash"}
+
+#: which families run on which grammars in the quick tier (thorough: everything
+#: everywhere)
+QUICK = {
+    "smt-literal": ("assgn", "esc"),
+    "smt-literal-nested": ("assgn",),
+    "smt-literal-two": ("assgn",),
+    "pred-string-arg": ("rightrec",),
+    "bound-name": ("rightrec",),
+    "bound-name-exists-in": ("assgn",),
+    "int-name": ("rightrec",),
+    "fresh-name-clash": ("assgn", "rightrec"),
+    "numeric": ("assgn", "rightrec", "nullable", "csvish", "xmlish"),
+    "predicate": ("assgn", "leftrec", "nullable", "multichar", "xmlish"),
+    "structure": ("assgn", "rightrec", "nullable", "num", "multichar", "csvish", "altstart"),
+    "smt-op": ("rightrec", "num"),
+    "smt-op-free": ("rightrec",),
+}
+
+
 def family(name: str, tier: str = "quick") -> List[dict]:
     prof = profile(name, tier)
     occ = prof.occurring()
@@ -275,37 +349,40 @@ def family(name: str, tier: str = "quick") -> List[dict]:
         return []
     T = occ[-1]  # a "leaf-ish" nonterminal (defined last)
     U = occ[0]  # the topmost nonterminal below <start>
-    M = occ[len(occ) // 2]
     a = isla_escape(prof.lit(T, 0))
     b = isla_escape(prof.lit(T, 1))
     tn = T[1:-1]
     cases: List[dict] = []
-    add = lambda fam, feat, c: cases.append(_case(name, fam, feat, c))
+
+    def add(fam, feat, c, sig=None):
+        if tier == "quick" and fam in QUICK and name not in QUICK[fam]:
+            return
+        cases.append(_case(name, fam, feat, c, sig))
 
     # ---- A. string literals of the critical set ------------------------------
-    if name in ("assgn", "esc", "csvish", "xmlish"):
-        for cls, lit in LITERALS:
-            add("smt-literal", cls, f'forall {T} x: x = "{lit}"')
-            add("smt-literal-nested", cls, f'str.len(str.++({T}, "{lit}")) > 1')
-            add("pred-string-arg", cls, f'forall {T} x: level("GE", "{lit}", x, x)')
-        for cls, lit in LITERALS[:16]:
-            add("smt-literal-two", cls, f'forall {T} x: (x = "{lit}" or x = "{a}{lit}")')
+    for cls, lit in LITERALS:
+        sg = "string-literal:" + _LIT_SIG.get(cls, cls)
+        add("smt-literal", cls, f'forall {T} x: x = "{lit}"', sg)
+        add("smt-literal-nested", cls, f'str.len({T} str.++ "{lit}") > 1', sg)
+        add("pred-string-arg", cls, f'forall {T} x: level("GE", "{lit}", x, x)', "predicate-" + sg)
+    for cls, lit in LITERALS[:16]:
+        add("smt-literal-two", cls, f'forall {T} x: (x = "{lit}" or x = "{a}{lit}")', "string-literal:" + _LIT_SIG.get(cls, cls))
 
     # ---- B. names ---------------------------------------------------------------
-    if name in ("assgn", "rightrec"):
-        for nm in NAMES + [tn, tn + "_0", tn + "_1"]:
-            add("bound-name", nm, f'forall {T} {nm}: {nm} = "{a}"')
-            add("bound-name-exists-in", nm, f'forall {U} u: exists {T} {nm} in u: str.len({nm}) > 0')
-            add("int-name", nm, f'exists int {nm}: count(start, "{T}", {nm})')
-        # fresh-name collisions between user names and names made for free nonterminals
-        add("fresh-name-clash", "bound-named-like-nonterminal", f'forall {T} {tn}: {tn} = {T}')
-        add("fresh-name-clash", "bound-named-like-fresh", f'forall {T} {tn}_0: {tn}_0 = {T}')
-        add("fresh-name-clash", "both", f'forall {T} {tn}: forall {T} {tn}_0: ({tn} = {tn}_0 or {tn} = {T})')
-        add("fresh-name-clash", "exists-then-free", f'exists {T} {tn}: {tn} = "{a}" and {T} = "{b}"')
-        add("fresh-name-clash", "two-quantifiers-same-name", f'forall {T} x: x = "{a}" or forall {T} x: x = "{b}"')
-        add("fresh-name-clash", "nested-same-name", f'forall {U} x: exists {T} x in x: x = "{a}"')
-        add("fresh-name-clash", "int-named-like-nonterminal", f'exists int {tn}: count({T}, "{T}", {tn})')
-        add("fresh-name-clash", "mexpr-var-named-like-outer", f'forall {T} x: exists {T} y="{{{T} x}}": x = "{a}"')
+    for nm, cls in [(n, n) for n in NAMES] + [(tn, "<nonterminal-name>"), (tn + "_0", "<nonterminal-name>_0"), (tn + "_1", "<nonterminal-name>_1")]:
+        add("bound-name", cls, f'forall {T} {nm}: {nm} = "{a}"', f"name:{cls}")
+        add("bound-name-exists-in", cls, f"forall {U} u: exists {T} {nm} in u: str.len({nm}) > 0", f"name:{cls}")
+        add("int-name", cls, f'exists int {nm}: count(start, "{T}", {nm})', f"int-name:{cls}")
+    # fresh-name collisions between user names and names made for free nonterminals
+    add("fresh-name-clash", "bound-named-like-nonterminal", f"forall {T} {tn}: {tn} = {T}")
+    add("fresh-name-clash", "bound-named-like-fresh", f"forall {T} {tn}_0: {tn}_0 = {T}")
+    add("fresh-name-clash", "both", f"forall {T} {tn}: forall {T} {tn}_0: ({tn} = {tn}_0 or {tn} = {T})")
+    add("fresh-name-clash", "exists-then-free", f'exists {T} {tn}: {tn} = "{a}" and {T} = "{b}"')
+    add("fresh-name-clash", "two-quantifiers-same-name", f'forall {T} x: x = "{a}" or forall {T} x: x = "{b}"')
+    add("fresh-name-clash", "nested-same-name", f'forall {U} x: exists {T} x in x: x = "{a}"')
+    add("fresh-name-clash", "int-named-like-nonterminal", f'exists int {tn}: count({T}, "{T}", {tn})')
+    add("fresh-name-clash", "mexpr-var-named-like-outer", f'forall {T} x: exists {T} y="{{{T} x}}": x = "{a}"')
+    add("fresh-name-clash", "xpath-var-vs-free", f"exists {U} v: v..{T} = {T}" if T in prof.desc.get(U, []) else f'{T} = "{a}"')
 
     # ---- C. free nonterminals --------------------------------------------------
     add("free-nonterminal", "single", f'{T} = "{a}"')
@@ -313,6 +390,7 @@ def family(name: str, tier: str = "quick") -> List[dict]:
     add("free-nonterminal", "start-len", "str.len(<start>) > 2")
     add("free-nonterminal", "start-and-other", f'str.len(<start>) > 2 and {T} = "{a}"')
     add("free-nonterminal", "start-in-predicate", f"inside({T}, <start>)")
+    add("free-nonterminal", "start-in-count", f'count(<start>, "{T}", "1")', "free-nonterminal:start-in-predicate")
     add("free-nonterminal", "two-types", f'{T} = "{a}" or str.len({U}) > 3')
     add("free-nonterminal", "same-type-twice", f'{T} = "{a}" or {T} = "{b}"')
     add("free-nonterminal", "in-clause", f'forall {T} x in {U}: x = "{a}"')
@@ -325,28 +403,35 @@ def family(name: str, tier: str = "quick") -> List[dict]:
     add("free-nonterminal", "count-needle", f'count({U}, "{T}", "1")')
 
     # ---- D. XPath expressions ---------------------------------------------------
-    for p in prof.nts:
-        if p == "<start>" or not prof.lits[p]:
-            continue
+    heads = [p for p in prof.nts if p != "<start>" and prof.lits[p]]
+    if tier == "quick":
+        heads = heads[:3]
+    for p in heads:
         for c, k in prof.children[p][:2]:
             la = isla_escape(prof.lit(c, 0))
-            add("xpath", "child-free", f'{p}.{c} = "{la}"')
-            add("xpath", "child-bound", f'exists {p} v: v.{c} = "{la}"')
-            add("xpath", "child-index-1", f'{p}.{c}[1] = "{la}"')
+            xc = _xpath_class(prof, p, c)
+            sg = "xpath:child" if xc == "plain" else f"xpath:child:generated-mexpr-terminal-{xc}"
+            add("xpath", "child-free", f'{p}.{c} = "{la}"', sg)
+            add("xpath", "child-bound", f'exists {p} v: v.{c} = "{la}"', sg)
+            add("xpath", "child-index-1", f'{p}.{c}[1] = "{la}"', sg)
             if k >= 2:
-                add("xpath", "child-index-2", f'{p}.{c}[2] = "{la}"')
-                add("xpath", "child-index-1-and-2", f"forall {p} v: v.{c}[1] = v.{c}[2]")
-            add("xpath", "child-in-predicate", f"forall {p} v: inside(v.{c}, v)")
+                add("xpath", "child-index-2", f'{p}.{c}[2] = "{la}"', sg)
+                add("xpath", "child-index-1-and-2", f"forall {p} v: v.{c}[1] = v.{c}[2]", sg)
+            add("xpath", "child-in-predicate", f"forall {p} v: inside(v.{c}, v)", sg)
             for d, _ in prof.children[c][:1]:
                 ld = isla_escape(prof.lit(d, 0))
-                add("xpath", "child-child", f'{p}.{c}.{d} = "{ld}"')
-                add("xpath", "child-descendant", f'{p}.{c}..{d} = "{ld}"')
+                xd = _xpath_class(prof, c, d)
+                sg2 = "xpath:child-child" if (xc, xd) == ("plain", "plain") else f"xpath:child-child:generated-mexpr-terminal-{xc}/{xd}"
+                if sg2 == "xpath:child-child" and _adjacent(prof, p, c, d):
+                    sg2 = "xpath:child-child:adjacent-terminals-in-generated-mexpr"
+                add("xpath", "child-child", f'{p}.{c}.{d} = "{ld}"', sg2)
+                add("xpath", "child-descendant", f'{p}.{c}..{d} = "{ld}"', sg.replace("xpath:child", "xpath:child-descendant"))
         for d in prof.desc[p][-2:]:
             ld = isla_escape(prof.lit(d, 0))
-            add("xpath", "descendant-free", f'{p}..{d} = "{ld}"')
-            add("xpath", "descendant-bound", f'forall {p} v: v..{d} = "{ld}"')
+            add("xpath", "descendant-free", f'{p}..{d} = "{ld}"', "xpath:descendant")
+            add("xpath", "descendant-bound", f'forall {p} v: v..{d} = "{ld}"', "xpath:descendant-on-named-variable")
             for e, _ in prof.children[d][:1]:
-                add("xpath", "descendant-child", f'{p}..{d}.{e} = "{isla_escape(prof.lit(e, 0))}"')
+                add("xpath", "descendant-child", f'{p}..{d}.{e} = "{isla_escape(prof.lit(e, 0))}"', "xpath:descendant-child")
     if prof.children.get("<start>"):
         c0 = prof.children["<start>"][0][0]
         add("xpath", "start-child", f'<start>.{c0} = "{isla_escape(prof.lit(c0, 0))}"')
@@ -356,44 +441,38 @@ def family(name: str, tier: str = "quick") -> List[dict]:
     for p in prof.nts:
         if not prof.lits[p]:
             continue
-        for ai, alt in enumerate(_alts_with_nts(prof, p)[:3]):
+        for ai, alt in enumerate(_alts_with_nts(prof, p)[: (3 if tier == "quick" else 8)]):
             nt_pos = [i for i, s in enumerate(alt) if s in prof.rules]
-            feat = "plain"
-            terminals = "".join(s for s in alt if s not in prof.rules)
-            for ch, cls in (('"', "terminal-dquote"), ("\\", "terminal-backslash"), ("\n", "terminal-newline"),
-                            ("\t", "terminal-tab"), ("ä", "terminal-non-ascii"), ("{", "terminal-brace"),
-                            ("[", "terminal-bracket"), ("<", "terminal-angle")):
-                if ch in terminals:
-                    feat = cls
-                    break
+            tc = _terminal_class(alt, prof.rules)
+            sg = f"mexpr:terminal-{tc}"
             q = "forall" if ai % 2 == 0 else "exists"
-            continue_name = "s0" if p == "<start>" else "m"
+            mv = "s0" if p == "<start>" else "m"
             first = nt_pos[0]
             la = isla_escape(prof.lit(alt[first], 0))
-            add("mexpr", f"{feat}:bind-first", f'{q} {p} {continue_name}="{_mexpr_text(alt, {first: "e1"})}": e1 = "{la}"')
-            add("mexpr", f"{feat}:bind-none", f'{q} {p} {continue_name}="{_mexpr_text(alt, {})}": str.len({continue_name}) > 1')
+            add("mexpr", f"{tc}:bind-first", f'{q} {p} {mv}="{_mexpr_text(alt, {first: "e1"}, prof.rules)}": e1 = "{la}"', sg)
+            add("mexpr", f"{tc}:bind-none", f'{q} {p} {mv}="{_mexpr_text(alt, {}, prof.rules)}": str.len({mv}) > 1', sg)
             if len(nt_pos) >= 2:
-                add("mexpr", f"{feat}:bind-two",
-                    f'{q} {p} {continue_name}="{_mexpr_text(alt, {nt_pos[0]: "e1", nt_pos[1]: "e2"})}": e1 = e2')
-                add("mexpr", f"{feat}:bind-last",
-                    f'{q} {p} {continue_name}="{_mexpr_text(alt, {nt_pos[-1]: "e_0"})}": str.len(e_0) > 0')
+                add("mexpr", f"{tc}:bind-two",
+                    f'{q} {p} {mv}="{_mexpr_text(alt, {nt_pos[0]: "e1", nt_pos[1]: "e2"}, prof.rules)}": e1 = e2', sg)
+                add("mexpr", f"{tc}:bind-last",
+                    f'{q} {p} {mv}="{_mexpr_text(alt, {nt_pos[-1]: "e_0"}, prof.rules)}": str.len(e_0) > 0', sg)
     if name == "assgn":
         add("mexpr", "optional", 'forall <stmt> s="{<assgn> x}[ ; <stmt>]": str.len(x) > 5')
-        add("mexpr", "optional-deeper", 'exists <stmt> s="<assgn>[ ; <assgn>]": str.len(s) > 6')
-        add("mexpr", "optional-and-bound", 'forall <stmt> s="{<var> l} := {<rhs> r}[ ; <stmt>]": l = r')
-        add("mexpr", "two-optionals", 'exists <stmt> s="<assgn>[ ; <assgn>][ ; <stmt>]": str.len(s) > 0')
+        add("mexpr", "optional-deeper", 'exists <stmt> s="<assgn>[ ; <assgn>]": str.len(s) > 6', "mexpr:optional")
+        add("mexpr", "optional-and-bound", 'forall <stmt> s="{<var> l} := {<rhs> r}[ ; <stmt>]": l = r', "mexpr:optional")
+        add("mexpr", "two-optionals", 'exists <stmt> s="<assgn>[ ; <assgn>][ ; <stmt>]": str.len(s) > 0', "mexpr:optional")
         add("mexpr", "deep", 'forall <assgn> x="<var> := {<var> r}": r = "a"')
         add("mexpr", "nested-quantifier-in", 'forall <stmt> s="{<assgn> x} ; {<stmt> t}": exists <var> v in t: x = v')
         add("mexpr", "whole", 'forall <var> v="{<var> w}": w = "a"')
     if name == "nullable":
-        add("mexpr", "optional-nullable", 'forall <start> s0="[-]{<body> b}<tail>": str.len(b) > 1')
+        add("mexpr", "optional-nullable", 'forall <start> s0="[-]{<body> b}<tail>": str.len(b) > 1', "mexpr:optional")
         add("mexpr", "terminal-dot", 'exists <tail> t=".{<body> b}": b = "n"')
     if name == "csvish":
-        add("mexpr", "optional-with-escape-n", 'forall <csv> c="{<row> r}[\\n<csv>]": str.len(r) > 0')
+        add("mexpr", "optional-with-escape-n", 'forall <csv> c="{<row> r}[\\n<csv>]": str.len(r) > 0', "mexpr:optional-with-escape")
         add("mexpr", "raw-newline", 'exists <csv> c="{<row> r}\n{<csv> d}": str.len(r) > 0')
     if name == "multichar":
         add("mexpr", "keywords", 'forall <stmt> s="if {<cond> c} then <stmt> else <stmt>": c = "true"')
-        add("mexpr", "optional-keyword", 'forall <cond> c="[not ]{<cond> d}": str.len(d) > 3')
+        add("mexpr", "optional-keyword", 'forall <cond> c="[not ]{<cond> d}": str.len(d) > 3', "mexpr:optional")
 
     # ---- F. numeric quantifiers -------------------------------------------------
     add("numeric", "exists-count", f'exists int n: count(start, "{T}", n)')
@@ -417,20 +496,20 @@ def family(name: str, tier: str = "quick") -> List[dict]:
     add("predicate", "nth-int", f"forall {U} u: exists {T} x in u: nth(1, x, u)")
     add("predicate", "nth-two", f'forall {U} u: forall {T} x in u: (nth("2", x, u) implies not x = "{a}")')
     for op in ("EQ", "GE", "LE", "GT", "LT"):
-        add("predicate", f"level-{op}", f'forall {T} x: forall {T} y: (level("{op}", "{U}", x, y) or not before(x, y))')
-    add("predicate", "xpath-arg", f"forall {U} u: inside(u, u)")
+        add("predicate", f"level-{op}", f'forall {T} x: forall {T} y: (level("{op}", "{U}", x, y) or not before(x, y))', "predicate:level")
     add("predicate", "unknown-predicate", f"forall {T} x: frobnicate(x)")
 
     # ---- H. SMT-LIB operators ---------------------------------------------------
-    if name in ("rightrec", "esc"):
+    if name != "num":
         for op, notation, tmpl in SMT_OPS:
-            add("smt-op", f"{op}:{notation}", f"forall {T} x: " + tmpl.format(x="x", a=a, b=b))
+            sg = f"smt-op:{op}" + ("-unindexed" if "old-style" in notation else "")
+            add("smt-op", f"{op}:{notation}", f"forall {T} x: " + tmpl.format(x="x", a=a, b=b), sg)
         for op, notation, tmpl in SMT_OPS[:40:3]:
-            add("smt-op-free", f"{op}:{notation}", tmpl.format(x=T, a=a, b=b))
-    if name == "num":
+            add("smt-op-free", f"{op}:{notation}", tmpl.format(x=T, a=a, b=b), f"smt-op:{op}")
+    else:
         for op, notation, tmpl in SMT_OPS_NUM:
-            add("smt-op", f"{op}:{notation}", "forall <digit> x: " + tmpl.format(x="x"))
-            add("smt-op", f"{op}:{notation}:int", "forall <digits> x: " + tmpl.format(x="x"))
+            add("smt-op", f"{op}:{notation}", "forall <digit> x: " + tmpl.format(x="x"), f"smt-op:{op}")
+            add("smt-op", f"{op}:{notation}:digits", "forall <digits> x: " + tmpl.format(x="x"), f"smt-op:{op}")
 
     # ---- I. propositional structure, layout --------------------------------------
     A, B, C = f'{T} = "{a}"', f'{T} = "{b}"', f"str.len({U}) > 3"
@@ -443,16 +522,16 @@ def family(name: str, tier: str = "quick") -> List[dict]:
     add("structure", "xor", f"{A} xor {C}")
     add("structure", "not-not", f"not not {A}")
     add("structure", "not-and", f"not ({A} and {C})")
-    add("structure", "not-quantifier", f"not (exists {T} x: x = \"{a}\")")
-    add("structure", "not-forall-mix", f"forall {U} u: not (forall {T} x in u: (x = \"{a}\" or x = \"{b}\"))")
+    add("structure", "not-quantifier", f'not (exists {T} x: x = "{a}")')
+    add("structure", "not-forall-mix", f'forall {U} u: not (forall {T} x in u: (x = "{a}" or x = "{b}"))')
     add("structure", "parens", f"(({A}))")
     add("structure", "comment", f"# leading comment\n{A} # trailing\n")
-    add("structure", "layout", f"forall   {T}\n\tx\n:\n  x   =   \"{a}\"")
+    add("structure", "layout", f'forall   {T}\n\tx\n:\n  x   =   "{a}"')
     add("structure", "const-decl", f"const start: <start>;\n{A}")
-    add("structure", "const-decl-other-name", f"const c: <start>;\nforall {T} x in c: x = \"{a}\"")
+    add("structure", "const-decl-other-name", f'const c: <start>;\nforall {T} x in c: x = "{a}"')
     add("structure", "true-conjunct", f"true and {A}")
     add("structure", "false-disjunct", f"false or {A}")
     add("structure", "same-twice", f"{A} and {A}")
-    add("structure", "contradiction", f"forall {T} x: (x = \"{a}\" and not x = \"{a}\")")
-    add("structure", "quantifier-binds-tighter", f"forall {T} x: x = \"{a}\" or {C}")
+    add("structure", "contradiction", f'forall {T} x: (x = "{a}" and not x = "{a}")')
+    add("structure", "quantifier-binds-tighter", f'forall {T} x: x = "{a}" or {C}')
     return cases
